@@ -427,6 +427,135 @@ def explore_rk4(case):
     return res
 
 
+def explore_predict_variants(case):
+    """configurations of the same routines that a lattice over dense O(1) inputs does not reach: factors of very small / large scale,
+    a sparse-pattern call followed by a dense one of the same dimension (history), symbolic inputs declared with a sparsity pattern"""
+    tier = case["tier"]
+    res = core.Result()
+    u = _util()
+    # (1) scale: W -> s W, Q -> s^2 Q leaves the identity exact
+    f2 = fn_predict(2)
+    p2 = sxvm.compile_fn(f2)
+    for s in (Fraction(1, 10 ** 8), Fraction(10 ** 6)):
+        for Wv in W_lattice(2)[::2]:
+            for Fv in F_lattice(2, tier)[::9]:
+                for Qm in Q_lattice(2)[1:3]:
+                    res.count("evaluations")
+                    res.nontrivial.add(hash((s, tuple(Wv), tuple(Fv))))
+                    W = [[x * s for x in r] for r in mat_from_lower(2, Wv)]
+                    Q = [[Fraction(x) * s * s for x in r] for r in Qm]
+                    Fm = [[Fraction(Fv[i * 2 + j]) for j in range(2)] for i in range(2)]
+                    outs, _ = sxvm.run(p2, [[Fraction(v) * s for v in Wv], colmajor(Fm), colmajor(Q)], sxvm.FRACTION)
+                    Wd = from_colmajor(outs[0], 2, 2)
+                    P = mm(W, tr(W))
+                    ok = not any(v is sxvm.POISON for r in Wd for v in r) and madd(mm(Wd, tr(W)), mm(W, tr(Wd))) == madd(madd(mm(Fm, P), mm(P, tr(Fm))), Q)
+                    if ok:
+                        # double precision evaluation by CasADi at this scale (relative to the scale of the right-hand side)
+                        fl = [[float(Fraction(v) * s) for v in Wv], [float(x) for x in colmajor(Fm)], [float(x) for x in colmajor(Q)]]
+                        od = sxvm.casadi_eval(f2, fl)[0]
+                        sc = max(abs(float(x)) for x in outs[0]) or 1.0
+                        ok = max(abs(a - float(b)) for a, b in zip(od, outs[0])) <= 1e-9 * sc
+                    if not ok:
+                        res.fail(site="util.sqrt_covariance_predict", clause="lyapunov_identity_exact", cls="scale=%g" % float(s), detail=dict(W=Wv, F=Fv, scale=float(s)), sub="variants", case=case)
+    fc = fn_correct(2, 2)
+    pc = sxvm.compile_fn(fc)
+    mp = mpmath.mp
+    for s in (1e-8, 1e6):
+        for Wv in W_lattice(2)[::3]:
+            for Hv in ([1, 0, 0, 1], [1, -1, 0, 1], [0, 1, 1, 1]):
+                res.count("evaluations")
+                Rv = [1, 1, 2]
+                flat = [[float(v) * s for v in Rv], [float(x) for x in Hv[0::2] + Hv[1::2]], [float(v) * s for v in Wv]]
+                H = [[Hv[0], Hv[1]], [Hv[2], Hv[3]]]
+                flat[1] = [float(x) for x in colmajor(H)]
+                outs, _ = sxvm.run(pc, flat, sxvm.MPF)
+                M = lambda rows: mp.matrix([[mp.mpf(x) for x in r] for r in rows])
+                Wm = M([[float(x) * s for x in r] for r in mat_from_lower(2, Wv)])
+                Rm = M([[float(x) * s for x in r] for r in mat_from_lower(2, Rv)])
+                Hm = M(H)
+                P = Wm * Wm.T
+                S = Hm * P * Hm.T + Rm * Rm.T
+                Kref = P * Hm.T * (S ** -1)
+                K = M(from_colmajor(outs[1], 2, 2))
+                if not all(mpmath.isfinite(v) for v in outs[1]) or max(abs(x) for x in (K - Kref)) > mp.mpf(10) ** -40:
+                    res.fail(site="util.sqrt_correct", clause="gain_is_P_Ht_Sinv", cls="scale=%g" % s, detail=dict(W=Wv, H=Hv, scale=s), sub="variants", case=case)
+    # (2) history: a call with sparse-pattern F, Q followed by a dense call of the same (otherwise unused) dimension
+    n = 4
+    try:
+        W = ca.SX.sym("W", ca.Sparsity.lower(n))
+        Fs = ca.SX.sym("F", ca.Sparsity.diag(n))
+        Qs = ca.SX.sym("Q", ca.Sparsity.diag(n))
+        u.sqrt_covariance_predict(W, Fs, Qs)
+        fd = fn_predict(n)
+        pd_ = sxvm.compile_fn(fd)
+        for k in range(6):
+            res.count("evaluations")
+            res.nontrivial.add(hash(("hist", k)))
+            Wv = [1 + ((i * 3 + k) % 3) if r == c else ((i + k) % 3) - 1 for i, (r, c) in enumerate(lower_idx(n))]
+            Fm = [[Fraction(((i * 2 + j + k) % 3) - 1) for j in range(n)] for i in range(n)]
+            A = [[Fraction(((i + 2 * j + k) % 3) - 1) for j in range(n)] for i in range(n)]
+            Q = mm(A, tr(A))
+            outs, _ = sxvm.run(pd_, [[Fraction(v) for v in Wv], colmajor(Fm), colmajor(Q)], sxvm.FRACTION)
+            Wd = from_colmajor(outs[0], n, n)
+            Wm = mat_from_lower(n, Wv)
+            P = mm(Wm, tr(Wm))
+            if any(v is sxvm.POISON for r in Wd for v in r) or madd(mm(Wd, tr(Wm)), mm(Wm, tr(Wd))) != madd(madd(mm(Fm, P), mm(P, tr(Fm))), Q):
+                res.fail(site="util.sqrt_covariance_predict", clause="lyapunov_identity_exact", cls="n=4;after_sparse_call", detail=dict(W=Wv, k=k), sub="variants", case=case)
+    except Exception as ex:
+        res.count("evaluations")
+        res.fail(site="util.sqrt_covariance_predict", clause="operation_raises", cls="history", detail=dict(msg=str(ex)[:200]), sub="variants", case=case)
+    # (3) factorizations of matrices declared with a sparsity pattern (arrow head: fill-in appears in L)
+    for kind in ("ldl", "udu"):
+        for n in (3, 4):
+            for first in (True, False):
+                pat = ca.Sparsity.diag(n)
+                sp = ca.DM(pat)
+                Pm = ca.DM.zeros(n, n)
+                idx = 0 if first else n - 1
+                for i in range(n):
+                    Pm[i, i] = 1
+                    Pm[i, idx] = 1
+                    Pm[idx, i] = 1
+                Ps = ca.SX.sym("P", Pm.sparsity())
+                try:
+                    Afac, D = (u.ldl_symmetric_decomposition(Ps) if kind == "ldl" else u.udu_symmetric_decomposition(Ps))
+                    f = ca.Function(kind + "_sparse", [Ps], [ca.densify(Afac), ca.densify(D)])
+                except Exception as ex:
+                    res.count("evaluations")
+                    res.fail(site="util.%s_symmetric_decomposition" % kind, clause="operation_raises", cls="sparse_pattern", detail=dict(n=n, msg=str(ex)[:200]), sub="variants", case=case)
+                    continue
+                prog = sxvm.compile_fn(f)
+                rows, cols = Pm.sparsity().get_triplet()
+                for k in range(4):
+                    res.count("evaluations")
+                    res.nontrivial.add(hash((kind, n, first, k)))
+                    dense = [[Fraction(0)] * n for _ in range(n)]
+                    for i in range(n):
+                        dense[i][i] = Fraction(n + 2 + ((i + k) % 3))
+                    for i in range(n):
+                        if i != idx:
+                            dense[i][idx] = dense[idx][i] = Fraction(((i + k) % 2) + 1)
+                    nz = [dense[r][c] for r, c in zip(rows, cols)]
+                    outs, _ = sxvm.run(prog, [nz], sxvm.FRACTION)
+                    A = from_colmajor(outs[0], n, n)
+                    D = from_colmajor(outs[1], n, n)
+                    if any(v is sxvm.POISON for r in A for v in r) or mm(mm(A, D), tr(A)) != dense:
+                        res.fail(site="util.%s_symmetric_decomposition" % kind, clause="reconstructs_input_with_unit_triangular_factor", cls="n=%d;sparse_pattern" % n,
+                                 detail=dict(P=[[str(x) for x in r] for r in dense], arrow_first=first), sub="variants", case=case)
+    res.samples.append(dict(variants="scale, history, sparse patterns"))
+    return res
+
+
+class _SubV:
+    chunks = 1
+
+    def cases(self, tier, seed):
+        return [dict(sub="variants", tier=tier, seed=seed)]
+
+    def run(self, case):
+        return explore_predict_variants(case)
+
+
 class _SubP:
     chunks = 1
 
@@ -476,6 +605,6 @@ class _SubR:
         return explore_rk4(case)
 
 
-SUBCHECKS = {"predict": _SubP(), "correct": _SubC(), "fact": _SubF(), "rk4": _SubR()}
-REPLAY = {"predict": lambda c: explore_predict(c).fails, "correct": lambda c: explore_correct(c).fails,
+SUBCHECKS = {"variants": _SubV(), "predict": _SubP(), "correct": _SubC(), "fact": _SubF(), "rk4": _SubR()}
+REPLAY = {"variants": lambda c: explore_predict_variants(c).fails, "predict": lambda c: explore_predict(c).fails, "correct": lambda c: explore_correct(c).fails,
           "fact": lambda c: explore_fact(c).fails, "rk4": lambda c: explore_rk4(c).fails}
